@@ -1,0 +1,28 @@
+//go:build verif
+
+package dedup
+
+import "sync/atomic"
+
+// Scheduling point for the verification harness (build tag verif). The point
+// "limiter.afterLookup" lies in Limiter.Run between the task lookup and
+// getOutput, where the caller holds no lock, so a caller parked there cannot
+// block other callers or the task garbage collector.
+
+type verifYieldFunc func(point string, input interface{})
+
+var verifYieldFn atomic.Value // verifYieldFunc
+
+func verifYield(point string, input interface{}) {
+	if fn, ok := verifYieldFn.Load().(verifYieldFunc); ok && fn != nil {
+		fn(point, input)
+	}
+}
+
+// VerifSetYield installs (or, with nil, removes) the function called at every scheduling point.
+func VerifSetYield(fn func(point string, input interface{})) {
+	if fn == nil {
+		fn = func(string, interface{}) {}
+	}
+	verifYieldFn.Store(verifYieldFunc(fn))
+}
